@@ -53,6 +53,9 @@ theorem chipProgram_eq (chip regs : Bytes) (hc : chip.length = 14) (hr : 14 ≤ 
     rw [List.getElem?_eq_getElem (by omega)]
     rfl
 
+theorem envProgram_true (env : Bool) : envProgram env = true := by
+  cases env <;> decide
+
 theorem sel_small : ∀ k, k < 14 → ((BitVec.ofNat 8 k) &&& (0x0F : Byte)).toNat = k := by decide
 
 theorem viaPorts_chip (regs : Bytes) : ∀ (l : List Nat) (m : Machine), (∀ k ∈ l, k < 14) →
@@ -67,6 +70,26 @@ theorem viaPorts_chip (regs : Bytes) : ∀ (l : List Nat) (m : Machine), (∀ k 
     rw [ih _ (fun k hk => h k (by simp [hk]))]
     have ha := sel_small a (h a (by simp))
     simp only [Machine.ayWrite, Machine.aySelect, ha]
+
+theorem viaPorts_env (regs : Bytes) : ∀ (l : List Nat) (m : Machine), (∀ k ∈ l, k < 14) →
+    (l.foldl (fun m k => (m.aySelect (BitVec.ofNat 8 k)).ayWrite (regs.getD k 0)) m).ayEnvAtStart
+      = l.foldl envWrite m.ayEnvAtStart := by
+  intro l
+  induction l with
+  | nil => intro m _; rfl
+  | cons a l ih =>
+    intro m h
+    simp only [List.foldl_cons]
+    rw [ih _ (fun k hk => h k (by simp [hk]))]
+    have ha := sel_small a (h a (by simp))
+    simp only [Machine.ayWrite, Machine.aySelect, ha]
+
+/-- Programming through the ports ends with the write of register 13: the envelope generator is at
+the start of its shape afterwards, whatever it was doing. -/
+theorem ayViaPorts_env (m : Machine) (regs : Bytes) : (m.ayViaPorts regs).ayEnvAtStart = true := by
+  unfold Machine.ayViaPorts
+  rw [viaPorts_env regs _ m (by intro k hk; simpa using hk)]
+  exact envProgram_true _
 
 /-- Programming through the ports leaves the chip with the first 14 bytes given. -/
 theorem ayViaPorts_chip (m : Machine) (regs : Bytes) (hc : m.ayChip.length = 14) (hr : 14 ≤ regs.length) :
@@ -111,9 +134,9 @@ theorem sim_z80r (d : Bytes) (m : Machine) (hI : Inv m) (hl : d.length = 37) (hi
 theorem restore7ffd_rest (fx : Fixes) (m : Machine) (v : Byte) :
     (m.restore7ffd fx v).ayRegs = m.ayRegs ∧ (m.restore7ffd fx v).aySel = m.aySel ∧
     (m.restore7ffd fx v).ayChip = m.ayChip ∧ (m.restore7ffd fx v).ayEnabled = m.ayEnabled ∧
-    (m.restore7ffd fx v).mouse = m.mouse := by
+    (m.restore7ffd fx v).mouse = m.mouse ∧ (m.restore7ffd fx v).ayEnvAtStart = m.ayEnvAtStart := by
   unfold Machine.restore7ffd Machine.write7ffd
-  split <;> split <;> exact ⟨rfl, rfl, rfl, rfl, rfl⟩
+  split <;> split <;> exact ⟨rfl, rfl, rfl, rfl, rfl, rfl⟩
 
 /-- SPCR on explicit field values (border `b0`, latch `v`, last OUT to FE `fe`) -/
 theorem sim_spcr_core (mid : Nat) (b0 v fe : Byte) (m : Machine) (hI : Inv m) (hk : m.kind = Spec.kindOfMid mid) :
@@ -125,7 +148,7 @@ theorem sim_spcr_core (mid : Nat) (b0 v fe : Byte) (m : Machine) (hI : Inv m) (h
                      if mid < 2 then a else { a with latch := v, locked := v &&& 0x20 != 0 }) := by
   intro m1 m2 m3
   obtain ⟨c1, _, _, c4, _, _⟩ := restore7ffd_same Fixes.all m (if mid < 2 then 0 else v)
-  obtain ⟨q1, q2, q3, q4, q5⟩ := restore7ffd_rest Fixes.all m (if mid < 2 then 0 else v)
+  obtain ⟨q1, q2, q3, q4, q5, q6⟩ := restore7ffd_rest Fixes.all m (if mid < 2 then 0 else v)
   have hkind := restore7ffd_kind Fixes.all m (if mid < 2 then 0 else v)
   have hI3 : Inv m3 := by
     refine ⟨?_, ?_, ?_⟩
@@ -159,8 +182,8 @@ theorem sim_spcr_core (mid : Nat) (b0 v fe : Byte) (m : Machine) (hI : Inv m) (h
   · have hk128 : m.kind = .k128 := by rw [hk]; simp [Spec.kindOfMid, hm]
     obtain ⟨p1, _, _, _, p5⟩ := restore7ffd_paging Fixes.all m (if mid < 2 then 0 else v) hk128 (Or.inl rfl)
     have hv : (if mid < 2 then (0 : Byte) else v) = v := if_neg hm
-    simp only [hm, if_false, hv] at c1 c4 hkind p1 p5 q1 q2 q3 q4 q5 ⊢
-    simp only [m3, m2, m1, hv, Spec.abs, Machine.setBorder, c1, c4, hkind, hk128, p1, p5, q1, q2, q3, q4, q5]
+    simp only [hm, if_false, hv] at c1 c4 hkind p1 p5 q1 q2 q3 q4 q5 q6 ⊢
+    simp only [m3, m2, m1, hv, Spec.abs, Machine.setBorder, c1, c4, hkind, hk128, p1, p5, q1, q2, q3, q4, q5, q6]
     simp
     by_cases h : v &&& 32#8 = 0#8 <;> simp [h]
 
@@ -213,7 +236,7 @@ theorem sim_ay (mid : Nat) (d : Bytes) (m : Machine) (hI : Inv m) (hl : d.length
       simp [hl]
     · exact hI1.k48
     · exact hI1.pfx
-    · simp only [Spec.abs, Machine.aySetRegs, Machine.aySelect, hwt, if_true]
+    · simp only [Spec.abs, Machine.aySetRegs, Machine.aySelect, hwt, if_true, envProgram_true]
       rw [chipProgram_eq _ _ (by rw [hchip1]; exact hI.chip) hregs]
       simp only [hen]
   · have hen' : m1.ayEnabled = false := by simpa using hen
